@@ -270,6 +270,7 @@ func applyCase(rel bool, t int64, ns osm.WayNodes, ms osm.Members, us osm.Update
 	var o obs
 	tv, tname := tq(t)
 	aliasFail := ""
+	var origAfter osm.Updates // update list of the ORIGINAL after the copy was updated (judged in Coq too)
 	if rel {
 		c.Class = "apply-relation"
 		c.Int(2)
@@ -282,6 +283,7 @@ func applyCase(rel bool, t int64, ns osm.WayNodes, ms osm.Members, us osm.Update
 		cp := *orig
 		cp.Members = append(osm.Members(nil), orig.Members...)
 		o = applyRel(&cp, tv)
+		origAfter = orig.Updates
 		if !sameUpdates(orig.Updates, snap) {
 			aliasFail = "ApplyUpdatesUpTo on a copy (cp := *r) changed the update list of the original relation"
 		}
@@ -296,6 +298,7 @@ func applyCase(rel bool, t int64, ns osm.WayNodes, ms osm.Members, us osm.Update
 		cp := *orig
 		cp.Nodes = append(osm.WayNodes(nil), orig.Nodes...)
 		o = applyWay(&cp, tv)
+		origAfter = orig.Updates
 		if !sameUpdates(orig.Updates, snap) {
 			aliasFail = "ApplyUpdatesUpTo on a copy (cp := *w) changed the update list of the original way"
 		}
@@ -306,7 +309,8 @@ func applyCase(rel bool, t int64, ns osm.WayNodes, ms osm.Members, us osm.Update
 		c.OracleFail = aliasFail
 	}
 	o.enc(c, rel)
-	d := map[string]interface{}{"op": "ApplyUpdatesUpTo (on a copy sharing the update list)", "t": relTime(tv), "t_representation": tname, "updates": descUpdates(us), "observed": o.desc(rel),
+	encUpdates(c, origAfter)
+	d := map[string]interface{}{"op": "ApplyUpdatesUpTo (on a copy sharing the update list)", "original_updates_afterwards": descUpdates(origAfter), "t": relTime(tv), "t_representation": tname, "updates": descUpdates(us), "observed": o.desc(rel),
 		"element_timestamp": relTime(wayStamp), "note": "timestamps are ns relative to 2017-07-14T02:40:00Z"}
 	if rel {
 		d["members"] = descMembers(ms)
@@ -504,6 +508,9 @@ func lsatCase(t int64, ns osm.WayNodes, us osm.Updates, mut func(*orb.LineString
 	encPoints(c, at)
 	c.Int(int64(o.Status))
 	encPoints(c, ls)
+	// the queried way afterwards (the query must not modify it; judged in Coq too)
+	encNodes(c, w.Nodes)
+	encUpdates(c, w.Updates)
 	hyp := lsatHyp(tv, ns, us, cp.Nodes, o.Status == 0)
 	if mut == nil && hyp {
 		same := !panicked && o.Status == 0 && len(at) == len(ls)
@@ -1092,6 +1099,13 @@ func main() {
 			groupCase(base+45, ms, []gway{{1, ns, us}}, func(o, i []osmgeojson.VerifC15Segment) { o[0].Reversed = !o[0].Reversed }),
 			groupCase(base+45, ms, []gway{{1, ns, us}}, func(o, i []osmgeojson.VerifC15Segment) { o[0].Line[0][1] += 7 }),
 		}
+		// the original's update list after applying on a copy / the way after a query: corrupt the
+		// last transported update (its reverse flag is the last token)
+		ca := applyCase(false, base+20, ns, nil, us, nil)
+		ca.Toks[len(ca.Toks)-1] ^= 2
+		cl := lsatCase(base+45, ns, us, nil)
+		cl.Toks[len(cl.Toks)-1] ^= 2
+		cans = append(cans, ca, cl)
 		for _, c := range cans {
 			c.Canary = 1
 			c.Class = ""
